@@ -171,6 +171,50 @@ func switchTable1(pkg *packages.Package, fn *ast.FuncDecl) map[string]string {
 		}
 		return true
 	})
+	// the enum / struct fallbacks may also follow a switch that has no default
+	// clause (`if isEnum { return "I32" }` after the switch, in an extracted helper)
+	if fn.Body != nil {
+		afterTable := false
+		for _, st := range fn.Body.List {
+			if sw, ok := st.(*ast.SwitchStmt); ok && sw.Tag != nil {
+				if sel, ok := sw.Tag.(*ast.SelectorExpr); ok && sel.Sel.Name == "Name" && isNamedPtr(pkg.TypesInfo.Types[sel.X].Type, "parser", "Type") {
+					afterTable = true
+				}
+				continue
+			}
+			ifs, ok := st.(*ast.IfStmt)
+			if !ok || !afterTable {
+				continue
+			}
+			kind := ""
+			ast.Inspect(ifs.Cond, func(c ast.Node) bool {
+				if id, ok := c.(*ast.Ident); ok {
+					switch id.Name {
+					case "isEnum", "IsEnum":
+						kind = "<enum>"
+					case "IsStruct":
+						kind = "<struct>"
+					}
+				}
+				return true
+			})
+			if kind == "" {
+				continue
+			}
+			if _, seen := out[kind]; seen {
+				continue
+			}
+			ast.Inspect(ifs.Body, func(c ast.Node) bool {
+				if bl, ok := c.(*ast.BasicLit); ok && bl.Kind == token.STRING {
+					if _, seen := out[kind]; !seen {
+						v, _ := strconv.Unquote(bl.Value)
+						out[kind] = v
+					}
+				}
+				return true
+			})
+		}
+	}
 	return out
 }
 
